@@ -1,9 +1,13 @@
 import GB.C12.Proofs
 import GB.Generated.Facts
+import GB.C02.Props   -- enforcement block at the end of this file
+import GB.C16.Props   -- idem (deadline handed to the target)
+import GB.C10.Props   -- idem (HTTP 504)
 /-
   C12 — property theorems (decoder part). Theorems only; helper lemmas live in Proofs.lean.
-  The enforcement clauses (deadline stops the whole call, DeadlineExceeded) are carried by the
-  Forward LTS of C02 and are listed there.
+  The enforcement clauses (deadline stops the whole call, DeadlineExceeded / 504, deadline seen by the target)
+  are carried by the Forward LTS (C02), the AdaptedClientConn model (C16) and the HTTP status table (C10); they are
+  restated for this property in the ENFORCEMENT block at the end of this file.
 -/
 open GB GB.C12
 
@@ -149,3 +153,68 @@ example : decodeTimeout [49, 48, 83] = some 10000000000 := by decide          --
 example : decodeTimeout [57, 57, 57, 57, 57, 57, 57, 57, 72] = some 9223372036854775807 := by decide  -- "99999999H"
 example : decodeTimeout [43, 49, 83] = none := by decide                      -- "+1S"
 example : callDeadline [[48, 83], [55, 83]] = some 0 := by decide               -- ["0S", "7S"]: first value, zero = expired
+
+
+/-! ## ENFORCEMENT block: the decoded value bounds the whole call (composition with C02 / C16 / C10)
+
+  `callDeadline vals = some d` is what `ProxyForwarder.baseContext` turns into `context.WithTimeout(ctx, d)`
+  (area c12 op `ctx` ties that step to the real Forward; area c12e2e ties the end-to-end behaviour per entry point).
+  From there on the property's clauses are statements about the Forward LTS `GB.Fwd` (every client, every target,
+  every interleaving), about the context `AdaptedClientConn.Stream` derives for the target, and about the HTTP
+  status table. -/
+section Enforcement
+open GB.Fwd GB.LTS
+variable {M E : Type} [DecidableEq M] [DecidableEq E]
+
+/-- "The call never outlives that deadline … even if client and target are both idle or the target is unreachable":
+    in EVERY reachable state of Forward over the repository's adapters (their context-awareness is a regenerated
+    fact, `C02_facts_ctx_aware`) — before stream creation, while waiting for the target, mid-stream, both sides
+    silent — once the deadline has fired Forward can and does return within 19 of its OWN steps; no step of the
+    client or of the target is needed (`unilateral`). -/
+theorem C12_deadline_stops_call (e0 : E) (cs ss : Bool) (s : State M E)
+    (hr : Reachable (C02_repoParams cs ss) s) (hc : s.ctx = some .deadline) :
+    ∃ ls s', GB.LTS.run (step (C02_repoParams cs ss)) s ls = some s' ∧ isDone s' = true ∧ ls.length ≤ 19 :=
+  C02_deadline_enforced e0 (C02_repoParams cs ss) s hr .deadline hc
+    (show GB.Generated.ctxAwareIncoming.all (·.2) = true by decide)
+    (show GB.Generated.ctxAwareOutgoing.all (·.2) = true by decide)
+
+/-- "ending with DeadlineExceeded when the deadline is what stops it": whenever Forward returns a context error,
+    it is the error of the FIRST expiry/cancellation the context saw — DeadlineExceeded iff the deadline struck
+    first, Canceled iff the client went away first; never one for the other, in any run. -/
+theorem C12_deadline_exceeded_origin (p : Params) (tr : List (Label M E)) (s : State M E) (h : Run p tr s)
+    (w : Why) (hd : s.main = .done (some (.ctx w))) : firstCtxDone tr = some w := by
+  have := C02_status p tr s h _ hd
+  simpa [originOK, origin, firstCtxDone] using this
+
+/-- …and a call in which no deadline fired and nobody cancelled never ends with a context error. -/
+theorem C12_no_spurious_deadline (p : Params) (tr : List (Label M E)) (s : State M E) (h : Run p tr s)
+    (w : Why) (hn : firstCtxDone tr = none) : s.main ≠ .done (some (.ctx w)) := by
+  intro hd
+  have := C12_deadline_exceeded_origin p tr s h w hd
+  rw [hn] at this; cases this
+
+/-- "the target never observes a later deadline than the client asked for": the context of the stream towards the
+    target inherits the call deadline, which is at most `now + d` for the decoded first value `d` and never later
+    than a deadline the incoming context already carried; with no decodable value it is the incoming one. -/
+theorem C12_target_deadline (now : Nat) (incoming : GB.C16.Conn.Ctx) (vals : List Bytes) :
+    let b := GB.C16.Conn.baseContext now incoming vals
+    (∀ d, callDeadline vals = some d → ∃ x, GB.C16.Conn.streamDeadline b = some x ∧ x ≤ now + d.toNat) ∧
+    (∀ p, incoming.deadline = some p → ∃ x, GB.C16.Conn.streamDeadline b = some x ∧ x ≤ p) ∧
+    (callDeadline vals = none → GB.C16.Conn.streamDeadline b = incoming.deadline) := by
+  intro b
+  have h := C16_forward_stream_deadline now incoming vals
+  exact ⟨h.2.2.1, h.2.2.2.1, h.2.2.2.2⟩
+
+/-- HTTP form of the outcome: an expired deadline is rendered as 504 (DeadlineExceeded in the status table). -/
+theorem C12_http_504 (env : GB.C10.Env) : GB.C10.wantStatus (GB.C10.deadlineErr env) = 504 := by
+  simp [GB.C10.wantStatus, GB.C10.explicitOf, GB.C10.deadlineErr, GB.C10.convert, GB.C10.RawErr.direct,
+    GB.C10.cDeadlineExceeded, GB.C10.canonicalHttp]
+
+/-- Non-vacuity: a bidirectional call with both sides idle in which the deadline strikes mid-stream is reachable,
+    and the run that follows returns DeadlineExceeded. -/
+example :
+    (GB.LTS.run (step (C02_repoParams true true)) (init Nat Nat)
+      [.outStreamCall, .outStreamRet .ok, .incRecvCall, .outRecvCall, .ctxDone .deadline]).map (·.ctx) =
+      some (some .deadline) := by decide
+
+end Enforcement
